@@ -40,11 +40,17 @@ func GenerateConverters(c *GenerateConfig) error {
 func generateConvertersRaw(c *GenerateConfig) (map[string][]byte, error) {
 	if c.WorkingDir != "" && !filepath.IsAbs(c.WorkingDir) {
 		// resolve a relative working directory once, so that the package loader and the
-		// @cwd/ output paths are spelled through the same path
-		abs, err := filepath.Abs(c.WorkingDir)
+		// @cwd/ output paths are spelled through the same path: relative to the physical
+		// working directory, like the operating system resolves it (filepath.Abs goes
+		// through $PWD, which may name a symbolic link; '..' then leads somewhere else)
+		wd, err := os.Getwd()
 		if err != nil {
 			return nil, err
 		}
+		if physical, err := filepath.EvalSymlinks(wd); err == nil {
+			wd = physical
+		}
+		abs := filepath.Join(wd, c.WorkingDir)
 		cfg := *c
 		cfg.WorkingDir = abs
 		c = &cfg
